@@ -102,6 +102,22 @@ let handle (i : string list) (o : string list) =
          end
        end
      | [] -> failwith "empty output")
+  | "Y" :: _ ->
+    (* C20 under a content encoding: the run from a stream equals the run from a buffer (lengths, MD5, packets) *)
+    (match o with
+     | _ :: "BADOTI" :: _ -> verdict_ok false
+     | _ :: rest ->
+       let rec split acc = function
+         | "//" :: r -> (List.rev acc, r)
+         | x :: r -> split (x :: acc) r
+         | [] -> (List.rev acc, []) in
+       let (a, s) = split [] rest in
+       if a = [] || s = [] then failwith "bad Y line"
+       (* a content encoding on a stream source is refused when the object is created (D45): nothing is sent *)
+       else if s = ["OBJERR"] then verdict_ok false
+       else if a <> s then verdict_pfail "P_C20_same_as_buffer(content-encoded)"
+       else verdict_ok (List.length a >= 4)
+     | [] -> failwith "empty output")
   | _ -> failwith "unknown line kind"
 
 let () = run_driver handle
